@@ -96,5 +96,9 @@ def catalogue():
         ("three levels, one shared namespace map", lambda: mkc("eml", None, [mkc("dataset", None, [mkc("title", "t", nsmap=ns), mkc("creator", None, [mkc("surName", "S", nsmap=ns)], nsmap=ns)],
                                                                            {"id": "d"}, nsmap=ns, share_nsmap=True)], {"packageId": "p.1.1"}, None, ns, "eml", share_nsmap=True)),
         ("a child with a binding of its own", lambda: mkc("a", None, [mkc("b", "x", nsmap=ns2, prefix="p"), mkc("c", "y", nsmap=ns)], nsmap=ns, share_nsmap=True)),
+        ("a child lacking a prefix its parent binds", lambda: mkc("a", None, [mkc("b", "x", nsmap={"eml": ns["eml"]}), mkc("c", "y", nsmap={})], nsmap=ns)),
+        ("a prefix re-bound two levels below the element that declares it",
+         lambda: mkc("a", None, [mkc("b", None, [mkc("c", "x", nsmap=dict(ns, eml="urn:other"))], nsmap=ns)], nsmap=ns, share_nsmap=True)),
+        ("a qualified attribute kept in Clark notation", lambda: mkc("a", None, (), None, None, ns, None, {"{http://www.w3.org/2001/XMLSchema-instance}nil": "true"})),
         ("same-named siblings in order", lambda: mkc("keywordSet", None, [mkc("keyword", "k1"), mkc("keyword", "k2"), mkc("keyword", "k3"), mkc("keywordThesaurus", "t")])),
     ]
